@@ -78,6 +78,8 @@ type Out struct {
 	MetricsFields map[string][]string `json:"metrics_fields"`
 	MetricsPublic map[string]map[string]string `json:"metrics_public"`
 	MetricsCallers []J `json:"metrics_callers"`
+	MetricsVars   map[string][]string `json:"metrics_vars"`  // C10: the variables holding the metrics state, found by role
+	MetricsNotes  []string            `json:"metrics_notes"` // C10: translator diagnostics (state not found ...)
 	Accesses      []AccessSite        `json:"accesses"`
 	Cells         []CellInfo          `json:"cells"`
 	AccessNotes   []string            `json:"access_notes"`
